@@ -1,4 +1,5 @@
 import Cbor.Gen.MemoryUtils
+import Cbor.Gen.Effects
 import Cbor.Gen.HeaderSize
 import Cbor.Lemmas.UInt
 /-!
@@ -182,5 +183,34 @@ example : _cbor_safe_to_multiply 0x100000000 0x100000000 = false := by decide +k
 example : _cbor_safe_to_add 0xFFFFFFFFFFFFFFFF 1 = false := by decide
 example : _cbor_safe_signaling_add 0xFFFFFFFFFFFFFFF0 0x10 = 0 := by decide
 example : _cbor_highest_bit 0xFFFFFFFFFFFFFFFF = 64 := by decide +kernel
+
+/-! ## allocation call sites (generated census) -/
+section sites
+open Gen.Effects
+
+def isIdent (s : String) : Bool := !s.toList.isEmpty && s.toList.all fun c => c.isAlphanum || c == '_'
+/-- `sizeof(T)` or `sizeof(T) + k` for a small literal k: a compile-time constant -/
+def isSizeof (s : String) : Bool :=
+  "sizeof(".toList.isPrefixOf s.toList &&
+    (")".toList.isSuffixOf s.toList || [" + 1", " + 2", " + 4", " + 8"].any fun t => t.toList.isSuffixOf s.toList)
+
+/-- an allocation call site is *guarded* when the byte count it passes is a compile-time constant, a length the
+caller already holds in a `size_t` (no arithmetic at the site), or — only inside the two `*_multiple` helpers,
+behind their `_cbor_safe_to_multiply` guard — the product `item_size * item_count`; and when the `*_multiple`
+helpers receive an element size that is a `sizeof` and a count that is a plain variable -/
+def okSite (site : String × String × List String) : Bool :=
+  match site with
+  | (f, "_cbor_malloc", [a]) => isSizeof a || isIdent a || (f == "_cbor_alloc_multiple" && a == "item_size * item_count")
+  | (f, "_cbor_realloc", [p, a]) => f == "_cbor_realloc_multiple" && p == "pointer" && a == "item_size * item_count"
+  | (_, "_cbor_alloc_multiple", [sz, n]) => isSizeof sz && isIdent n
+  | (_, "_cbor_realloc_multiple", [_, sz, n]) => isSizeof sz && isIdent n
+  | (_, "_cbor_free", _) => true
+  | _ => false
+
+/-- **No arithmetic at allocation sites.**  Every allocator call in the library (the census regenerated from
+the sources on this run) is guarded in the sense above: products are formed only inside the guarded helpers. -/
+theorem C20_alloc_sites_guarded : allocSites.all okSite = true ∧ 40 ≤ allocSites.length := by decide +kernel
+
+end sites
 
 end Props.C20
